@@ -3,7 +3,7 @@ import json, os, re
 
 ID = "C04"
 GEN = "c04"
-HARNESS_TEST = "TestC04.*"
+HARNESS_TEST = "TestC04.*"   # TestC04, TestC04ViaOnRunStart (StateDB API), TestC04Tx (real transactions)
 COQ_MODEL = ["C04/Check.v", "Gen/C04Facts.v"]
 COQ_PROOF_DEPS = ["C04/Proofs.v"]  # pulls ProofsBase/Undo/Ops/Inv/Sim/Run
 COQ_OBLIG = ["C04/Property.v", "Gen/C04Oblig.v"]
@@ -17,7 +17,10 @@ RULE = ("case = initial account/slot table + script tree (depth <= 6, <= 60 ops,
         "SavePrecompileCalledJournalChange, CommitCacheCtx; body on the cache ctx VALUE obtained there: bank SendCoins of unibi, "
         "EVM writes (ERC20-style slot updates, logs, nonces), nested frames and NESTED precompile calls, failing or not) executed "
         "on the real statedb.StateDB + bank keeper; blocked module accounts (distribution, fee collector) as credit targets so that the flush before a precompile call fails half-way; write-backs of tx-start values after later calls; evm.create on funded objects; first the historic failure shapes F2/F2b/F2c/F2d, probe16 and a 12-call "
-        "script; non-trivial = a frame (or failing call) that contains a precompile call is reverted while an EVM write or "
+        "script; THIRD DRIVER TestC04Tx: one real signed MsgEthereumTx per case through EvmKeeper.EthereumTx to a hand-assembled script contract that does SSTOREs, value transfers, "
+        "self-call frames (kept / REVERT) and REAL FunToken precompile calls (sendToEvm, sendToBank, bankMsgSend, balance) for a unibi mapping, a tokenfactory-denom mapping and an "
+        "ERC20-born mapping whose token makes a nested failing oracle-precompile call; each call is translated into the model's script ops (non-unibi balances = pseudo accounts, "
+        "ERC20 ledgers = storage) and the same model / Pb are evaluated; non-trivial = a frame (or failing call) that contains a precompile call is reverted while an EVM write or "
         "bank move made before/inside/after it has to be kept or dropped; distinct = distinct input")
 ASSUMPTIONS = [
     "observations: OTouch = (GetBalance wei, bank unibi on the current ctx); OReadState = (GetState, GetCommittedState); the model emits the same list and the reference dictates what the flagged ones must show",
@@ -27,6 +30,7 @@ ASSUMPTIONS = [
 ]
 TRUSTED = [
     "hand-written Gallina model coq/C04/Model.v of x/evm/statedb (tied to the code by the correspondence run on every check)",
+    "translation of real FunToken calls into script ops (_tx_script in tools/props/c04.py): a wrong translation shows as a mismatch on the unchanged tree",
 ]
 HARNESS_TIMEOUT = {"quick": 300, "thorough": 3600}
 
@@ -85,6 +89,61 @@ def _body(ops):
     return "[" + "; ".join(_prog(o) for o in ops) + "]"
 
 
+# ---- the transaction driver (harness/c04/c04tx_test.go): real calls -> script ops of the model ----
+# model addresses: 1 = script contract C (the caller), 2 / 3 = recipients, 5 = EVM module account;
+# ERC20 ledgers = storage of 4 (unibi token), 8 (tf-denom token), 14 (ORC) with keys 1,2,3,5 = balanceOf(holder), 9 = totalSupply;
+# non-unibi bank balances = balances of pseudo accounts 20+id (tf denom), 30+id (erc20/ORC), 29 / 39 = 10^6 - bank supply.
+_TOK = {"u": 4, "d": 8, "e": 14}
+_BASE = {"u": 0, "d": 20, "e": 30}
+_FAIL_AMT = 1000000
+
+
+def _tx_call(o):
+    k, tok = o[0], o[1]
+    if k == "qb":
+        return ["pc", [], False]
+    x, to = o[2], o[3]
+    if x <= 0 or x >= _FAIL_AMT:
+        return ["pc", [], True]                      # fails before any nested precompile call is made
+    t, b = _TOK[tok], _BASE[tok]
+    oracle = ["pc", [], True]                        # ORC.transfer(): nested oracle call, no price -> fails, ignored
+    # the bank creates the auth account of a recipient of coins (a unibi send does so in the model already)
+    mk = [["ab", to, 0]] if tok != "u" else []
+    if k == "bms":                                   # bank MsgSend caller -> to
+        return ["pc", [["bs", b + 1, b + to, x]] + mk, False]
+    if k == "ste":                                   # escrow / burn the coins, mint / release the ERC20
+        if tok == "e":
+            return ["pc", [["bs", b + 1, b + 5, x], ["is", t, 5, -x], ["is", t, to, x], oracle, ["bs", b + 5, b + 9, x]], False]
+        return ["pc", [["bs", b + 1, b + 5, x], ["is", t, 9, x], ["is", t, to, x]], False]
+    if k == "stb":                                   # ERC20 to the module (then burnt), coins released / minted
+        if tok == "e":
+            return ["pc", [["is", t, 1, -x], ["is", t, 5, x], oracle, ["bs", b + 9, b + 5, x], ["bs", b + 5, b + to, x]] + mk, False]
+        return ["pc", [["is", t, 1, -x], ["is", t, 5, x], ["is", t, 5, -x], ["is", t, 9, -x], ["bs", b + 5, b + to, x]] + mk, False]
+    raise ValueError("unknown tx op %r" % (o,))
+
+
+def _tx_script(ops):
+    out = []
+    for o in ops:
+        k = o[0]
+        if k == "ss":
+            out.append(["ss", 1, o[1], o[2]])
+        elif k == "xf":
+            out += [["sb", 1, o[2]], ["ab", o[1], o[2]]]
+        elif k == "fr":
+            out.append(["fr", _tx_script(o[1]), o[2]])
+        else:
+            out.append(_tx_call(o))
+    return out
+
+
+def _script(inp):
+    """the script in model ops: given, or translated from a transaction of the tx driver"""
+    if "tx" in inp:
+        return _tx_script(inp["tx"])
+    return inp["script"]
+
+
 def to_coq_case(rec):
     i, ob = rec["input"], rec["obs"]
     accs = "; ".join("(%s, (%s, %s, %s))" % (_z(a[0]), _z(a[1]), _z(a[2]), _z(a[3])) for a in i["accs"])
@@ -111,7 +170,7 @@ def to_coq_case(rec):
         "; ".join("(%s, %s, %s)" % (_z(v[0]), _z(v[1]), _z(v[2])) for v in ob["views"])))
     blocked = "; ".join(_z(b) for b in i.get("blocked", []))
     return "{| c_accs := [%s]; c_stor := [%s]; c_script := %s; c_blocked := [%s]; c_fail := %s; c_obs := %s |}" % (
-        accs, stor, _body(i["script"]), blocked, "true" if bad else "false", o)
+        accs, stor, _body(_script(i)), blocked, "true" if bad else "false", o)
 
 
 def _walk(ops, depth=0, in_rev=False):
@@ -134,7 +193,7 @@ def _writes(ops):
 
 def nontrivial(rec):
     """a reverted frame (or failing call) containing a precompile call, with EVM writes or bank moves around it"""
-    ops = rec["input"]["script"]
+    ops = _script(rec["input"])
 
     def scan(body, outer_writes):
         seen_write = outer_writes
@@ -157,7 +216,7 @@ def nontrivial(rec):
 
 
 def classify(rec):
-    ops = rec["input"]["script"]
+    ops = _script(rec["input"])
     ks = []
     n = 0
     maxd = 0
@@ -187,6 +246,16 @@ def classify(rec):
     if ob.get("commit_err"):
         ks.append("commit_err")
     ks.append("views=%d" % min(len(ob["views"]), 10))
+    if "tx" in rec["input"]:
+        ks.append("driver=tx")
+
+        def walk(ops, rev):
+            for o in ops:
+                if o[0] == "fr":
+                    yield from walk(o[1], rev or o[2])
+                else:
+                    yield "tx:" + o[0] + ("/" + o[1] if o[0] in ("ste", "stb", "bms", "qb") else "") + ("/in-reverted-frame" if rev else "")
+        ks += sorted(set(walk(rec["input"]["tx"], False)))
     return ks
 
 
@@ -195,15 +264,42 @@ def describe(rec):
 
 
 def signature(rec):
-    kinds = sorted({o[0] + ("/rev" if o[0] in ("fr", "pc") and o[2] else "") for o, _, _ in _walk(rec["input"]["script"])})
+    if "tx" in rec["input"]:
+        def walk(ops):
+            for o in ops:
+                if o[0] == "fr":
+                    yield "fr/rev" if o[2] else "fr"
+                    yield from walk(o[1])
+                else:
+                    yield o[0] + ("/" + o[1] if o[0] in ("ste", "stb", "bms", "qb") else "")
+        return {"kind": "frame-atomicity", "driver": "tx", "ops": sorted(set(walk(rec["input"]["tx"])))}
+    kinds = sorted({o[0] + ("/rev" if o[0] in ("fr", "pc") and o[2] else "") for o, _, _ in _walk(_script(rec["input"]))})
     return {"kind": "frame-atomicity", "ops": kinds}
 
 
 def input_size(inp):
-    return sum(10 + len(o[1]) * 3 if o[0] == "pc" else 10 for o, _, _ in _walk(inp.get("script", []))) + len(inp["accs"]) + len(inp["stor"])
+    return sum(10 + len(o[1]) * 3 if o[0] == "pc" else 10 for o, _, _ in _walk(_script(inp) if ("tx" in inp or "script" in inp) else [])) + len(inp["accs"]) + len(inp["stor"])
+
+
+def _tx_variants(body):
+    res = []
+    for i in range(len(body)):
+        res.append(body[:i] + body[i + 1:])                          # drop an op
+        o = body[i]
+        if o[0] == "fr":
+            if not o[2]:
+                res.append(body[:i] + o[1] + body[i + 1:])            # inline a kept frame
+            for sub in _tx_variants(o[1]):
+                res.append(body[:i] + [["fr", sub, o[2]]] + body[i + 1:])
+        if o[0] in ("ste", "stb", "bms") and 1 < o[2] < _FAIL_AMT:
+            res.append(body[:i] + [[o[0], o[1], 1, o[3]]] + body[i + 1:])   # smallest amount
+    return res
 
 
 def shrink_candidates(inp):
+    if "tx" in inp:
+        return [{"accs": inp["accs"], "stor": inp["stor"], "tx": t, "blocked": inp.get("blocked", [])}
+                for t in _tx_variants(inp["tx"]) if t]
     out = []
 
     def variants(body):
@@ -251,8 +347,10 @@ MANIFEST = {
                  "pre-fix behaviour (F2, F2b, F2c, F2d) and for a precompile body that keeps the multistore object it was started with "
                  "after a nested precompile call is reverted (C04_nested_stale_ctx_refuted; run_h with live:=false, proved equal to the "
                  "main model for live:=true). The design's proof plan P1-P5 was completed; the bounded fallback "
-                 "was not needed. The model is run on every check against the real statedb.StateDB + bank keeper on the "
-                 "same generated scripts (two drivers: API calls one by one and through precompile.OnRunStart) and the "
+                 "was not needed. The model is run on every check against the real code on the same generated scripts (three drivers: the "
+                 "StateDB API calls one by one, through precompile.OnRunStart, and REAL TRANSACTIONS - signed MsgEthereumTx to a script "
+                 "contract calling the real FunToken precompile for unibi, a tokenfactory denom and an ERC20-born mapping, in kept and "
+                 "reverted frames, observing bank balances and supplies of all three denoms, the ERC20 ledgers and contract storage) and the "
                  "proved-sound checker Pb (reference vs observed) is evaluated on those traces; the call limit, the shape "
                  "of its check, the OnRunStart call order and the set of precompile entry points are re-extracted from /repo."),
         "design_ref": "DESIGN.md §5 C04",
@@ -260,9 +358,9 @@ MANIFEST = {
     "level_note": ("Proved about the hand-written model at the vm.StateDB interface (interpreter usage protocol), not about "
                    "Go: the tie is the correspondence run (0 mismatches required) + generated facts. Precompile bodies are scripts "
                    "of unibi bank sends, StateDB writes, frames and nested precompile calls (what an EVM call made from inside a "
-                   "body amounts to at the vm.StateDB interface); other coins / wasm state (same cache "
-                   "multistore, same snapshot), code table, gas and events are not modelled - so a body that loses only NON-unibi "
-                   "bank writes is seen by the harness only when the reverted nested call moved unibi itself. Domain `wf` excludes bank sends "
+                   "body amounts to at the vm.StateDB interface); non-unibi coins are carried by the same bank ledger as balances of pseudo accounts (transaction driver); "
+                   "wasm state (same cache multistore, same snapshot; the Wasm precompile is not exercised), code table, gas and events "
+                   "are not modelled; the transaction driver does not observe nonces, code, logs, refund or access lists (the API drivers do). Domain `wf` excludes bank sends "
                    "from/to an account that self-destructed earlier in the tx (there the bank sees 0 while the StateDB shows "
                    "later credits - documented boundary) and evm.create on an address with storage written in the tx. "
                    "Trusted: Coq kernel + vm_compute, the go/ast extractor, driver canonicalisation, check.py."),
